@@ -162,7 +162,12 @@ def spec_kind(sp):
 
 
 def is_builder_spec(sp):
-    return sp["k"] in ("q", "empty", "insert")
+    """the object has a _selects list (QueryBuilder, or a chain: its base's)"""
+    return sp["k"] in ("q", "empty", "insert", "chain")
+
+
+def spec_cls(sp):
+    return sp["base"]["cls"] if sp["k"] == "chain" else sp["cls"]
 
 
 def malformed(sp):
@@ -212,7 +217,7 @@ def own_kwargs(Kcall, sp):
     """the decoy: the operand's own class defaults instead of the base's"""
     if not is_builder_spec(sp):
         return None
-    dialect, quote, _ = class_defaults(sp["cls"])
+    dialect, quote, _ = class_defaults(spec_cls(sp))
     K = dict(Kcall)
     K["dialect"] = dialect
     K["quote_char"] = quote
@@ -370,14 +375,16 @@ def run_impl(case):
     out["Ks"] = Ks
     ops = []
     for sp, ob in zip(specs, objs):
-        isb = isinstance(ob, QueryBuilder)
-        if isb:
+        if isinstance(ob, QueryBuilder):
             sel = [getattr(s, "alias", None) for s in ob._selects]
             d = {"sel": sel, "builder": True, "wrap": bool(ob.wrap_set_operation_queries),
                  "dialect": ob.dialect.name if ob.dialect is not None else None, "quote": ob.QUOTE_CHAR}
+        elif isinstance(ob, _SetOperation):
+            sel = [getattr(s, "alias", None) for s in ob.base_query._selects]
+            d = {"sel": sel, "builder": isinstance(getattr(type(ob), "_selects", None), property),
+                 "wrap": False, "dialect": None, "quote": None}
         else:
-            n = spec_arity(sp) or 0
-            d = {"sel": [None] * n, "builder": False, "wrap": False, "dialect": None, "quote": None}
+            d = {"sel": [], "builder": False, "wrap": False, "dialect": None, "quote": None}
         d["texts"] = [[_safe(lambda: ob.get_sql(subquery=False, **unjk(K))), _safe(lambda: ob.get_sql(subquery=True, **unjk(K)))]
                       for K in Ks]
         ops.append(d)
@@ -463,8 +470,8 @@ _KW = re.compile(r"UNION ALL\b|UNION\b|INTERSECT\b|EXCEPT\b|MINUS\b")
 
 
 def split_depth0(text):
-    """split at set keywords that are outside quotes and outside parentheses -> (segments, keywords)"""
-    segs, kws = [], []
+    """split at set keywords that are outside quotes and outside parentheses -> (segments, keywords, keyword spans)"""
+    segs, kws, spans = [], [], []
     depth, quote, start, i, n = 0, None, 0, 0, len(text)
     while i < n:
         c = text[i]
@@ -482,12 +489,13 @@ def split_depth0(text):
             if m:
                 segs.append(text[start:i])
                 kws.append(m.group(0))
+                spans.append((i, m.end()))
                 i = m.end()
                 start = i
                 continue
         i += 1
     segs.append(text[start:])
-    return segs, kws
+    return segs, kws, spans
 
 
 def _viol(op, kind, what, msg):
@@ -549,18 +557,32 @@ def _check_chain_text(case, text, Kcall):
     specs, meths = all_operand_specs(case), all_meths(case)
     K = eff_kwargs(Kcall, specs[0])
     wrap = _expected_wrap(specs[0])
-    segs, kws = split_depth0(text)
     out = []
     n = len(specs)
-    if len(segs) != n:
+    owns = [build_operand(sp).get_sql(**unjk(K)) for sp in specs]
+    # an operand that is itself a chain and is NOT wrapped brings its own depth-0 keywords: they belong to it
+    inner = [0 if wrap else len(split_depth0(o)[1]) for o in owns]
+    _, kws_all, spans = split_depth0(text)
+    if len(kws_all) != n - 1 + sum(inner):
         return [_viol("any", spec_kind(specs[0]), "operand-count",
-                      "%d operands composed, %d depth-0 segments in %r" % (n, len(segs), text))]
+                      "%d operands composed (with %d keywords of their own), %d depth-0 keywords in %r"
+                      % (n, sum(inner), len(kws_all), text))]
+    segs, kws, j, start = [], [], 0, 0
+    for i in range(n):
+        j += inner[i]
+        if i < n - 1:
+            segs.append(text[start:spans[j][0]])
+            kws.append(kws_all[j])
+            start = spans[j][1]
+            j += 1
+        else:
+            segs.append(text[start:])
     for i, (m, kw) in enumerate(zip(meths, kws)):
         if kw != METHS[m][1]:
             out.append(_viol(m, spec_kind(specs[i + 1]), "keyword",
                              "call #%d %s rendered as %s, documented %s: %r" % (i + 1, m, kw, METHS[m][1], text)))
     for i, sp in enumerate(specs):
-        own = build_operand(sp).get_sql(**unjk(K))
+        own = owns[i]
         exp = "(" + own + ")" if wrap else own
         seg = segs[i].strip()
         m = "base" if i == 0 else meths[i - 1]
@@ -576,8 +598,7 @@ def _check_chain_text(case, text, Kcall):
                 if i == n - 1:
                     return out
                 continue
-            others = ["(" + build_operand(s2).get_sql(**unjk(K)) + ")" if wrap else build_operand(s2).get_sql(**unjk(K))
-                      for s2 in specs]
+            others = ["(" + o2 + ")" if wrap else o2 for o2 in owns]
             bare = own if wrap else "(" + own + ")"
             if (seg == bare) or (i == n - 1 and seg.startswith(bare)):
                 what = "wrapping"
@@ -622,7 +643,11 @@ def _check_sqlite(case, outcome):
     base = specs[0]
     got = sq["chain"]
     wrapped = _expected_wrap(base)
+    nested_bare = (not wrapped) and any(sp["k"] == "chain" for sp in specs)
     if isinstance(got, str):
+        if nested_bare:
+            return [_viol("any", "_SetOperation-operand-without-wrapping", "grouping-lost-on-sqlite",
+                          "SQLite rejects %r: %s" % (outcome["text"], got))]
         if wrapped and 'near "(": syntax error' in got and base["cls"] == "SQLLiteQuery" and base.get("wrap") is None:
             return [_viol("any", "SQLLiteQuery-default-wrapping", "sqlite-rejects-parenthesised-operands",
                           "SQLite rejects %r: %s" % (outcome["text"], got))]
@@ -655,7 +680,10 @@ def _check_sqlite(case, outcome):
     lo = off or 0
     hi = None if lim is None else lo + lim
     msg = "chain %r returns %r; operands %r folded left to right give %r" % (outcome["text"], got, sq["ops"], ref_sorted)
-    v = lambda what: [_viol("any", base["cls"], "sqlite-rows:" + what, msg)]  # noqa
+    if nested_bare:     # every row difference of such a chain is the one known defect: the nested chain is flattened
+        v = lambda what: [_viol("any", "_SetOperation-operand-without-wrapping", "grouping-lost-on-sqlite", msg)]  # noqa
+    else:
+        v = lambda what: [_viol("any", base["cls"], "sqlite-rows:" + what, msg)]  # noqa
     if lim is None and not off:
         if sorted(got) != sorted(ref):
             return v("set-expression")
@@ -802,6 +830,10 @@ def gen_q(rng, cls, arity, sqlite_safe=False, tbl=None, aliases=False):
 
 def gen_operand(rng, base_cls, arity, sqlite_safe=False, special=None):
     if sqlite_safe:
+        if special == "chain":      # all flags off, so that SQLite accepts the text at all
+            a, b = gen_q(rng, "SQLLiteQuery", arity, True), gen_q(rng, "SQLLiteQuery", arity, True)
+            a["wrap"] = False
+            return {"k": "chain", "base": a, "m": rng.choice(["union", "union_all", "intersect", "except_of"]), "o": b}
         return gen_q(rng, rng.choice(["SQLLiteQuery", "SQLLiteQuery", "Query"]), arity, True)
     cls = base_cls if rng.random() < 0.8 else rng.choice(CLASSES)
     if special == "chain":
@@ -837,7 +869,10 @@ def gen_case(rng, maxlen, sqlite_stream=False):
             ar[rng.randrange(n)] = rng.choice([1, 2, 3])
     special = [None] * n        # per case (not per operand), so that long chains stay mostly well-formed
     r = rng.random()
-    if r < 0.12:
+    if sqlite_stream:
+        if r < 0.10 and base.get("wrap") is False:
+            special[rng.randrange(n)] = "chain"
+    elif r < 0.12:
         special[rng.choice([0, n // 2, n - 1])] = "chain"
         if rng.random() < 0.2:
             special[rng.randrange(n)] = "chain"
@@ -893,7 +928,7 @@ def gen_case(rng, maxlen, sqlite_stream=False):
 
 
 def gen_cases(rng, tier):
-    n, maxlen = (1000, 6) if tier == "quick" else (12000, 12)
+    n, maxlen = (1000, 6) if tier == "quick" else (8500, 12)
     out = []
     for i in range(n):
         out.append(gen_case(rng, maxlen, sqlite_stream=(i % 5 == 4)))
